@@ -120,6 +120,9 @@ fn filter_shapes(shown_df: &str, shown: u32, pi_bits: u32) -> (Vec<(String, Opti
         ("low-bit".to_string(), Some(vec![shown ^ 1])),
         ("high-bit".to_string(), Some(vec![shown ^ 0x800000])),
         ("other+parity-field".to_string(), Some(vec![other, pi_bits])),
+        // entries wider than 24 bits (the config accepts any u32): not the displayed 24-bit address
+        ("shown+2^24".to_string(), Some(vec![shown | 0x0100_0000])),
+        ("shown+ff<<24".to_string(), Some(vec![shown | 0xff00_0000, other])),
     ];
     // lists of three and four addresses in every order (membership must not depend on the order)
     let mut acfs = acfs;
